@@ -17,6 +17,8 @@ fn table() -> Arc<Table> {
         OpDesc::bin_un("-", 0, false), // 2
         OpDesc::bin("/", 1, false),    // 3
         OpDesc::un("f"),               // 4
+        OpDesc::bin("|", 0, true),     // 5: a second commutative operator on the priority of +
+        OpDesc::bin("&", 1, true),     // 6: a second commutative operator on the priority of *
     ])
 }
 
@@ -253,5 +255,12 @@ pub fn run(tier: Tier) -> i32 {
     let m = SubsModel { table: t.clone(), bases: Arc::new(big), pool: Arc::new(pool), max_len: if tier.thorough() { 3 } else { 2 } };
     explore(m, &mut rep, "c11", &format!("{n_big} expressions with 3 leaves"));
     crate::derived::run_derived(&mut rep, "C11", crate::derived::Focus::Subs, tier.thorough());
+    // two different commutative operators on one priority level, on both sides of a replaced variable
+    let twin_leaves = vec![Tree::var("x"), Tree::var("y"), Tree::lit(1)];
+    let twin = bases_of(Alphabet { leaves: twin_leaves, uns: vec![], bins: vec![0, 5, 1, 6] }, &[(2, 0), (3, 0)], &t);
+    let n_twin = twin.len();
+    let twin_pool = read_all(&["x|y", "y&x", "x+y", "z*x", "2|z"], &t);
+    let m = SubsModel { table: t.clone(), bases: Arc::new(twin), pool: Arc::new(twin_pool), max_len: if tier.thorough() { 3 } else { 2 } };
+    explore(m, &mut rep, "c11", &format!("{n_twin} expressions over two pairs of commutative operators of equal priority (+ |, * &)"));
     rep.finish()
 }
